@@ -459,6 +459,11 @@ func (root *Root) ParseFS(fsys fs.FS, patterns ...string) (err error) {
 			cerr := f.Close()
 			if err == nil {
 				err = cerr
+				// Each file may start with a byte order mark of its own, the
+				// parser only expects one at the start of what it is given.
+				if 0 < len(schema) && 3 <= len(bytes) && bytes[0] == 0xEF && bytes[1] == 0xBB && bytes[2] == 0xBF {
+					bytes = bytes[3:]
+				}
 				schema = append(schema, bytes...)
 			}
 		}
